@@ -22,6 +22,21 @@ CLAIMED = {
             'Generated-input search over edit histories: each program (configuration + 5..200 symbolic edit ops from the profiles mixed/growshrink/deep/links/boot) is applied to a fresh PyCdlib object and to a reference model of the documented semantics; the image is written, reopened by a fresh object and its API view (walk/get_record/get_file_from_iso_fp in every namespace) must equal the model view. Failures are bucketed by signature, re-confirmed on refusal-free programs, attributed to open known findings only if they vanish when that finding\'s avoidance switch alone is on, and minimised by ddmin.',
             'Trusts the reference model (vf/model.py, each rule cites a docstring). Over-refusals (legal edit refused) are counted, not failed. Files > 4 GiB are not covered in the quick tier.',
             'DESIGN.md section 3, C01'),
+    'C02': ('exploration',
+            'model-based property testing (Hypothesis): generated multi-generation edit histories (write/close/open in the middle) against a reference model',
+            'As C01, but every program contains 1-3 reopen steps (the image is written, closed and the written bytes opened again) with edits before and after each; the API view of the reopened object must equal the reference model after every reopen and after the final write, so untouched content must be carried over unchanged and removed entries must be gone in every namespace.',
+            'Foreign images are not available offline (vendor/*.tar.gz are git-LFS pointers): only images the library wrote are used. Trusts the reference model.',
+            'DESIGN.md section 3, C02'),
+    'C05': ('exploration',
+            'round-trip property testing (Hypothesis): write -> open -> write -> open -> write over generated images, byte comparison with the modification-date fields masked',
+            'Each generated program (all profiles incl. El Torito sections, isohybrid, UDF, XA, duplicate PVDs, relocation, multi-sector continuation areas, with and without earlier generations) is mastered, then opened and written twice more under a pinned clock; B1 must equal B0 apart from the volume modification date fields and B2 must equal B1 exactly. The first differing byte is classified by the kind of on-disc object it lies in.',
+            'time.time/uuid4/random pinned by the harness. Images the library cannot reopen are C01/C02 findings and only counted.',
+            'DESIGN.md section 3, C05'),
+    'C06': ('exploration',
+            'differential / metamorphic property testing (Hypothesis): same edits under generated schedules of force_consistency / queries / extra writes and both consistency modes must give identical bytes',
+            'For each generated program the edits alone are run lazily to obtain reference bytes; then two drawn schedules insert force_consistency, get_record/list_children/walk/full_path_from_dirrecord/file_mode and extra write_fp calls at drawn positions, in lazy or always-consistent mode, and the final image must be byte-identical. After force_consistency the extent and length reported by get_record for every path must be where the next written image holds that file / directory.',
+            'Random/uuid/time draws are pinned per op serial so inserted calls cannot shift them. Programs whose plain run fails are C01 domain and only counted.',
+            'DESIGN.md section 3, C06'),
 }
 
 NOT_YET = 'check not built yet in this session (work in progress; see DESIGN.md section 9 for the order)'
